@@ -204,10 +204,15 @@ func c04Setup() (*c04Infra, error) {
 					n, _ := v.(json.Number)
 					d, _ := n.Int64()
 					body[k] = now + d
+				case "rawclaims", "decode":
 				default:
 					body[k] = v
 				}
 			}
+
+			// members written exactly as given: values a well-behaved endpoint would not send (dates out of range,
+			// wrong JSON types)
+			c04RawClaims(body, spec)
 
 			raw, _ := json.Marshal(body)
 
@@ -347,6 +352,14 @@ func c04Setup() (*c04Infra, error) {
 	return c04Inf, c04Error
 }
 
+// c04RawClaims adds the members listed under "rawclaims" ([[name, JSON text], ...]) to a JSON object, each value
+// literally as written (1e300 stays 1e300)
+func c04RawClaims(dst map[string]any, spec map[string]any) {
+	for _, p := range c04Pairs(spec["rawclaims"]) {
+		dst[p[0]] = json.RawMessage(p[1])
+	}
+}
+
 func (inf *c04Infra) mint(desc map[string]any) (string, error) {
 	keyName := getStr(desc, "key")
 
@@ -398,6 +411,9 @@ func (inf *c04Infra) mint(desc map[string]any) (string, error) {
 				claims[k] = now + int64(getInt(desc, k))
 			}
 		}
+
+		// claims written exactly as given (the token is signed all the same): dates out of range, wrong JSON types
+		c04RawClaims(claims, desc)
 
 		payload, err = json.Marshal(claims)
 		if err != nil {
